@@ -15,6 +15,8 @@ DEFAULT_MODELS = {
     "(*github.com/CorentinB/warc.CustomHTTPClient).Close": Z + "/internal/verifmodel.WarcClientClose",
     "(*github.com/internetarchive/gocrawlhq.Client).Add": Z + "/internal/verifmodel.HQAdd",
     "(*github.com/internetarchive/gocrawlhq.Client).Delete": Z + "/internal/verifmodel.HQDelete",
+    "(*github.com/internetarchive/gocrawlhq.Client).Seencheck": Z + "/internal/verifmodel.HQSeencheck",
+    "golang.org/x/net/idna.ToASCII": Z + "/internal/verifmodel.IdnaToASCII",
     "github.com/grafov/m3u8.DecodeFrom": Z + "/internal/verifmodel.M3U8DecodeFrom",
     "encoding/json.Unmarshal": Z + "/internal/verifmodel.JSONUnmarshal",
     "(*encoding/json.Decoder).Decode": Z + "/internal/verifmodel.JSONDecoderDecode",
@@ -304,5 +306,34 @@ PROPS["C05"] = {
     "harnesses": [
         {"pkg": PRE, "func": "VerifH_C05_children", "opts": {"map_order_all": False}, "covers": ["out-of-scope-child", "in-scope-child"]},
         {"pkg": PRE, "func": "VerifH_C05_seed", "opts": {"map_order_all": False}, "covers": ["out-of-scope-seed", "in-scope-seed", "seencheck-disabled"]},
+    ],
+}
+
+STORE_MODELS = dict(DEFAULT_MODELS)
+STORE_MODELS.update({k: v for k, v in URL_MODELS.items() if "leveldb" in k})
+PROPS["C08"] = {
+    "level": "model_checking",
+    "explanation": "the real local seencheck (SeencheckItem/isSeen/seen over the FNV-keyed store) and the real crawl-HQ seencheck are executed from SSA for every prior record state of the URLs (absent / seen as seed / seen as asset), "
+                   "every item kind (seed, redirect target, asset), every HQ answer (any subset unseen, or an error); models.URL.String() runs its real code (net/url query parsing, encodeQuery, URL.String) with only IDNA modelled; "
+                   "in-tree uniqueness of fetched URLs is C11's de-duplication obligation.",
+    "bounds": "2 URLs (one with an escaped query) x 3 prior record states x 3 tree shapes; HQ: 1-2 children x 4 answers x error; one check followed by one later check of the same URL",
+    "outside": "hash collisions of the 64-bit FNV key; concurrent checks on one store; LevelDB itself (modelled as a map; natively a real store in a temp dir); the HQ server (natively an httptest stand-in)",
+    "assumptions": COMMON_ASSUME + ["leveldb store = map (Get reflects earlier Sets)", "gocrawlhq.Client.Seencheck returns the sub-list of the sent URLs that HQ has not seen, or an error", "idna.ToASCII is the identity on ASCII hosts"],
+    "models": STORE_MODELS,
+    "stub_pkgs": DEFAULT_STUBS + [STATS],
+    "harnesses": [
+        {"pkg": "internal/pkg/preprocessor/seencheck", "func": "VerifH_C08_local", "opts": {"map_order_all": False}, "covers": ["skipped", "fetched", "promotion"]},
+        {"pkg": HQ, "func": "VerifH_C08_hq", "opts": {"map_order_all": False}, "covers": ["hq-error", "hq-unseen", "hq-seen"]},
+    ],
+}
+PROPS["C09"] = {
+    "level": "model_checking",
+    "explanation": "models.URL.String()/URLToString/encodeQuery and net/url's query parsing run from their real SSA; Go's unspecified map iteration order is a decision variable, so the check asks whether ANY iteration order makes two URL objects "
+                   "with the same text disagree or makes the parameters change order; the accept conditions of NormalizeURL (scheme, localhost/127.0.0.1, dotless host, fragment removal, quote trimming) are exercised in C05's harnesses.",
+    "bounds": "6 query shapes (2-3 keys, repeated keys, valueless key, no query); all map iteration orders",
+    "outside": "idempotence, WHATWG-conformant relative resolution, IDNA and percent-encoding behaviour: properties of ada-url (C++), net/url and x/net/idna, whose parsers are not encoded",
+    "assumptions": COMMON_ASSUME + ["idna.ToASCII is the identity on ASCII hosts"],
+    "harnesses": [
+        {"pkg": MD, "func": "VerifH_C09_query_canonical", "replay_repeat": 400, "covers": ["several-keys"]},
     ],
 }
